@@ -1388,6 +1388,9 @@ class ContactHandler(Messenger, dbus.service.Object):
     @dbus.service.method(DBUS_IFACE, in_signature='', out_signature='')
     def close(self):
         ''' Close the TCP connection immediately. '''
+        # Anything queued but not started will never be sent
+        self._tx_cancel_pending()
+
         if tuple(self.locations):
             self.remove_from_connection()
 
